@@ -8,3 +8,6 @@ import LettreVerif.Props.C19
 #print axioms LV.C19.data_phase_linear
 #print axioms LV.C19.envelope_json_linear
 #print axioms LV.C19.mime_version_short
+#print axioms LV.C19.folding_writer_linear
+#print axioms LV.C19.content_type_linear
+#print axioms LV.C19.plain_header_value_linear
